@@ -27,3 +27,11 @@ Print Assumptions attrs_declared.
 Theorem refusal_names_missing : forallb (fun x => match validate x with Some m => negb (String.eqb m "") | None => true end) all_cells = true.
 Proof. vm_compute. reflexivity. Qed.
 Print Assumptions refusal_names_missing.
+
+(* the public entry point BaseSolver.solve validates on EVERY call (only the keyword run_checks=False skips it), keeps
+   no state on the solver between calls, always ends in self._solve(...), and no solver class overrides solve or
+   _validate: so the matrix theorems above apply to every call, whatever was solved before with the same object *)
+Theorem solve_validates_every_call :
+  solve_validate_guards = ["run_checks"%string] /\ solve_self_stores = [] /\ solve_returns_solve = true /\ solve_overrides = [].
+Proof. vm_compute. repeat split; reflexivity. Qed.
+Print Assumptions solve_validates_every_call.
